@@ -6,8 +6,9 @@
 //
 // Case line (blank separated, strings lower-case hex, "-" = empty):
 //
-//	wire <fmt> <ssl> <keepalive> <instances> <tgt> <ncfg> {k v}*ncfg <nitems> {item}*nitems
+//	wire <fmt> <ssl> <keepalive> <instances> <tgt> <preload> <resp> <ncfg> {k v}*ncfg <nitems> {item}*nitems
 //	  fmt  = uri | uripost | jsonline | raw         tgt = ip (127.0.0.1:PORT) | name (localhost:PORT)
+//	  preload = provider option `preload` 0|1        resp = <status>:<bytes> what the target answers to every request
 //	  item = H k v                                   an in-file "[k: v]" line (uri, uripost only)
 //	       | E method uri scheme urlhost tag body nh {k v}*nh
 //	         scheme = - (request-URI only) | h | s (absolute URL http://urlhost<uri> / https://…)
@@ -24,6 +25,7 @@
 package main
 
 import (
+	"bytes"
 	"context"
 	"crypto/tls"
 	"encoding/json"
@@ -69,13 +71,16 @@ type item struct {
 }
 
 type wcase struct {
-	format string
-	ssl    bool
-	ka     bool
-	inst   int
-	tgt    string
-	cfg    []kv
-	items  []item
+	format  string
+	ssl     bool
+	ka      bool
+	inst    int
+	tgt     string
+	preload bool
+	rstatus int
+	rsize   int
+	cfg     []kv
+	items   []item
 }
 
 func parseCase(line string) (*wcase, error) {
@@ -113,6 +118,10 @@ func parseCase(line string) (*wcase, error) {
 		c.ka = next() == "1"
 		c.inst = num()
 		c.tgt = next()
+		c.preload = next() == "1"
+		rs, rz, _ := strings.Cut(next(), ":")
+		c.rstatus, _ = strconv.Atoi(rs)
+		c.rsize, _ = strconv.Atoi(rz)
 		for n := num(); n > 0; n-- {
 			k := str()
 			v := str()
@@ -232,10 +241,12 @@ type record struct {
 }
 
 type recorder struct {
-	mu    sync.Mutex
-	recs  []record
-	conns map[string]bool // connections seen by the target (remote addresses)
-	newc  int             // ConnState(StateNew) events at the target
+	status int
+	size   int
+	mu     sync.Mutex
+	recs   []record
+	conns  map[string]bool // connections seen by the target (remote addresses)
+	newc   int             // ConnState(StateNew) events at the target
 }
 
 var (
@@ -257,10 +268,17 @@ func handler(srv string) http.Handler {
 			}
 			rec.mu.Unlock()
 		}
+		status, size := 200, 2
+		if rec != nil && srv == "T" {
+			status, size = rec.status, rec.size
+		}
 		w.Header().Set("Content-Type", "text/plain")
-		w.WriteHeader(200)
-		if r.Method != "HEAD" {
-			_, _ = w.Write([]byte("ok"))
+		if status == 301 {
+			w.Header().Set("Location", "/elsewhere")
+		}
+		w.WriteHeader(status)
+		if r.Method != "HEAD" && status != 204 && status != 304 && size > 0 {
+			_, _ = w.Write(bytes.Repeat([]byte("r"), size))
 		}
 	})
 }
@@ -317,7 +335,7 @@ func runCase(line string) string {
 	if err != nil {
 		return "badcase"
 	}
-	rec := &recorder{conns: map[string]bool{}}
+	rec := &recorder{conns: map[string]bool{}, status: c.rstatus, size: c.rsize}
 	srv := httptest.NewUnstartedServer(handler("T"))
 	srv.Config.ConnState = func(cn net.Conn, st http.ConnState) {
 		if st == http.StateNew {
@@ -365,7 +383,7 @@ func runCase(line string) string {
 	for _, h := range c.cfg {
 		hdrs = append(hdrs, fmt.Sprintf("[%s: %s]", h.k, h.v))
 	}
-	ammo := map[string]any{"type": typ, "file": path, "limit": nEntries}
+	ammo := map[string]any{"type": typ, "file": path, "limit": nEntries, "preload": c.preload}
 	if len(hdrs) > 0 {
 		ammo["headers"] = hdrs
 	}
